@@ -14,6 +14,7 @@ T3  HTNOrderTrace replays every recorded construction history through the specif
     histories observed after every call).
 Python builds objects, calls the API and projects results; every verdict is TLC's.
 """
+import gc
 import os
 import random
 import re
@@ -422,18 +423,50 @@ def enumerate_cases(ctx, jobs, parallel):
     return out
 
 
+def _slim(t):
+    """What the judge reads of a trace (exception names and API entry points stay in Python)."""
+
+    def ob(o):
+        return {"po": {"k": o["po"]["k"], "v": o["po"]["v"]}, "to": {"k": o["to"]["k"], "v": o["to"]["v"]}}
+
+    ops = []
+    for o in t["ops"]:
+        x = {k: v for k, v in o.items() if k not in ("v", "obs", "calls")}
+        if "calls" in o:
+            x["calls"] = [{k: v for k, v in c.items() if k != "v"} for c in o["calls"]]
+        x["obs"] = [ob(y) for y in o["obs"]]
+        ops.append(x)
+    return {"id": t["id"], "ops": ops}
+
+
 def judge(ctx, label, traces, n, workers):
-    d = ctx.sub("judge-" + label)
-    path = os.path.join(d, "traces.ndjson")
-    tlc.write_ndjson(path, traces)
-    res = tlc.run_tlc("HTNOrderTrace", TRACE_CFG % {"n": n}, d, env={"TRACES": path}, timeout=3000, workers=workers)
-    os.remove(path)
-    if res.error or res.violated:
-        raise MachineryError("HTNOrderTrace failed: %s %s" % (res.violated, res.error))
-    expected = sum(len(t["ops"]) + 1 for t in traces)
-    if res.distinct != expected:
-        raise MachineryError("trace judge consumed %d states, expected %d" % (res.distinct, expected))
-    return res
+    """HTNOrderTrace on the recorded histories; large batches are split over concurrent TLC runs
+    (TLC reads the file and generates the initial states sequentially).  Returns (printed, results)."""
+    k = max(1, min(4, len(traces) // 4000))
+    size = -(-len(traces) // k)
+    parts = [traces[i : i + size] for i in range(0, len(traces), size)]
+    d = ctx.sub("judge-%d" % len(ctx.cov["tlc_runs"]))
+
+    def one(arg):
+        i, part = arg
+        dd = os.path.join(d, "p%d" % i)
+        os.makedirs(dd, exist_ok=True)
+        path = os.path.join(dd, "traces.ndjson")
+        tlc.write_ndjson(path, [_slim(t) for t in part])
+        res = tlc.run_tlc(
+            "HTNOrderTrace", TRACE_CFG % {"n": n}, dd, env={"TRACES": path}, timeout=3000, workers=max(2, workers // len(parts)), heap="4g"
+        )
+        os.remove(path)
+        if res.error or res.violated:
+            raise MachineryError("HTNOrderTrace failed: %s %s" % (res.violated, res.error))
+        expected = sum(len(t["ops"]) + 1 for t in part)
+        if res.distinct != expected:
+            raise MachineryError("trace judge consumed %d states, expected %d" % (res.distinct, expected))
+        return res
+
+    with ThreadPoolExecutor(max_workers=len(parts)) as ex:
+        results = list(ex.map(one, list(enumerate(parts))))
+    return [p for r in results for p in r.printed], results
 
 
 def other_feature(trace, upto):
@@ -459,9 +492,9 @@ def other_feature(trace, upto):
     return "precedences-only"
 
 
-def report(ctx, res, traces, label):
+def report(ctx, printed, traces, label):
     byid = {t["id"]: t for t in traces}
-    for p in res.printed:
+    for p in printed:
         if p and p[0] == "FAIL":
             t = byid[p[1]]
             ob = t["ops"][p[3] - 1]["obs"][p[4] - 1]
@@ -503,6 +536,7 @@ def bind(ctx, label, kind, salt, items, n, pool, workers):
                 redo.append((tid, st2, r, plan))
                 confirmed = st2 == "timeout"
         ctx.notes["timeouts_retried"] = ctx.notes.get("timeouts_retried", 0) + len(redo)
+        ctx.notes.setdefault("timeout_ids", []).extend([tid for tid, status, _ in late if status == "timeout"][:10])
         if confirmed:
             for tid, status, plan in late:
                 if status == "timeout":
@@ -526,10 +560,13 @@ def bind(ctx, label, kind, salt, items, n, pool, workers):
         return
     ctx.cov["evaluations"] += sum(len(o["obs"]) for t in traces for o in t["ops"])
     ctx.cov["distinct_nontrivial"] += sum(1 for t in traces if any(o["op"] in ("prec", "cons") or o.get("calls") for o in t["ops"]))
-    res = judge(ctx, label, traces, n, workers)
-    ctx.add_tlc("trace-" + label, res)
+    t0 = time.time()
+    printed, results = judge(ctx, label, traces, n, workers)
+    ctx.notes["judge_s"] = round(ctx.notes.get("judge_s", 0) + time.time() - t0, 1)
+    for i, res in enumerate(results):
+        ctx.add_tlc("trace-%s [%d/%d]" % (label, i + 1, len(results)), res)
     ctx.cov["traces_validated_against_impl"] += len(traces)
-    report(ctx, res, traces, label)
+    report(ctx, printed, traces, label)
     ctx.sample({"kind": label, "ops": traces[len(traces) // 2]["ops"]})
 
 
@@ -574,9 +611,10 @@ def judge_alive(ctx, workers):
         18: ("", tr(18, 2, [(1, 2), (2, 1)], [], L([[2, 1], [1, 2]]), NONE)),
     }
     traces = [t for _, t in expect.values()]
-    res = judge(ctx, "alive", traces, 3, workers)
-    got = {p[1]: p[2] for p in res.printed if p and p[0] == "FAIL"}
-    zone = {p[1] for p in res.printed if p and p[0] == "UNSPEC"}
+    printed, results = judge(ctx, "alive", traces, 3, workers)
+    res = results[0]
+    got = {p[1]: p[2] for p in printed if p and p[0] == "FAIL"}
+    zone = {p[1] for p in printed if p and p[0] == "UNSPEC"}
     for tid, (clause, _) in expect.items():
         if got.get(tid, "") != clause:
             raise MachineryError("judge self-check: trace %d expected clause %r, judge said %r" % (tid, clause, got.get(tid, "")))
@@ -630,6 +668,10 @@ def run(ctx):
     ncases = 0
     global _TIMEOUTS
     _TIMEOUTS = multiprocessing.get_context("fork").Value("i", 0)
+    # a full collection in a forked worker touches (copies) the whole inherited heap: measured stalls of
+    # 10-25 s on a loaded VM; freezing the parent's objects before the fork removes them
+    gc.collect()
+    gc.freeze()
     pool = multiprocessing.get_context("fork").Pool(6 if q else 12)
     try:
         groups = enumerate_cases(ctx, small_jobs, par)
@@ -668,6 +710,7 @@ def run(ctx):
     finally:
         pool.terminate()
         pool.join()
+        gc.unfreeze()
     ctx.cov["exhaustive"] = True
     ctx.cov["phase_wall_s"] = dict(ctx.notes)
     ctx.cov["rule"] = (
